@@ -142,6 +142,10 @@ def gen_configs(pid, tier):
             # directories: create_dir(_all), remove_dir(_all), read_dir, renames of directories and across directories
             ("gen_dirs", consts(pid, OpKinds=DIR_OPS | {"metadata", "exists", "read_file"}, MaxLen=4 if q else 6, **DIR_PATHS),
              "edges", True, [("std", 1), ("mix", 2)]),
+            # nested directories: sub-directories pending / synced below a directory that is removed, renamed or renamed onto
+            ("gen_nested", consts(pid, OpKinds={"create_dir", "create_dir_all", "remove_dir", "remove_dir_all", "sync_dir", "rename", "read_dir"},
+                                  FilePaths=set(), DirPaths={"/d", "/d/a", "/e"}, RenDirs={"/d", "/e"},
+                                  ViewSet={"/", "/d", "/d/a", "/e", "/e/a"}, MaxLen=4 if q else 6), "edges", True, [("std", 1), ("tokio", 1)]),
             # every valid combination of create / create_new / truncate / append on existing and missing files
             ("gen_modes", consts(pid, OpKinds={"open", "close", "write_file", "read", "write", "len", "remove_file"},
                                  FilePaths={"/a", "/d/a"}, DirPaths={"/d"}, OpenModes=ALL_MODES, Bytes={1, 2}, ReadLens={3},
@@ -200,7 +204,8 @@ def random_configs(pid, tier, seed):
     q = tier == "quick"
     if pid == "C10":
         cfgs = [dict(runs=120 if q else 800, len=30, rich=1, dir_rename=1, crash=0, fe="mix", maxh=2),
-                dict(runs=60 if q else 400, len=40, rich=0, dir_rename=0, crash=0, fe="std", maxh=2)]
+                dict(runs=60 if q else 400, len=40, rich=0, dir_rename=0, crash=0, fe="std", maxh=2),
+                dict(runs=60 if q else 400, len=30, rich=2, dir_rename=0, crash=0, fe="tokio", maxh=2)]   # nested directories
     else:
         cfgs = [dict(runs=100 if q else 800, len=30, rich=2, dir_rename=0, crash=8, fe="mix", maxh=2, knob=0),
                 dict(runs=50 if q else 400, len=40, rich=0, dir_rename=0, crash=12, fe="tokio", maxh=2, knob=0),
@@ -692,18 +697,22 @@ def run(pid, tier, seed, replay=None):
     # binding demonstration: a corrupted observation must be rejected by the PropSpec -----------------
     tpath, ps, rc, unjudged = first_trace
     bad = os.path.join(w, "random_0_corrupt.ndjson")
-    where = corrupt_trace(tpath, bad, unjudged) if pid == "C10" else corrupt_crash(tpath, bad, unjudged)
-    if where:
-        rejects, _l, _k, devs, drifts, pr, ir = validate_trace(pid, bad, rc["maxh"], ps, f"{pid}_bind", knob=rc.get("knob", 0) == 1)
-        rejected = where in rejects and where in drifts
-        ck.extra["binding_demo"] = {"corruption": "one byte of a file read back after a call changed" if pid == "C10"
-                                    else "a file that survived a crash removed from the recorded image",
-                                    "at": list(where), "rejected_by_FsRefTrace": where in rejects,
-                                    "rejected_by_FsImplTrace": where in drifts}
-        if not rejected:
-            raise MachineryError(f"binding demonstration failed: corrupted trace accepted at {where}")
+    if ck.violations:
+        # the demonstration presupposes a tree on which the recorded trace is accepted; the verdict stands
+        ck.extra["binding_demo"] = {"skipped": "violations were recorded on this tree"}
     else:
-        ck.extra["binding_demo"] = {"skipped": "no suitable event in the first random trace"}
+        where = corrupt_trace(tpath, bad, unjudged) if pid == "C10" else corrupt_crash(tpath, bad, unjudged)
+        if where:
+            rejects, _l, _k, devs, drifts, pr, ir = validate_trace(pid, bad, rc["maxh"], ps, f"{pid}_bind", knob=rc.get("knob", 0) == 1)
+            rejected = where in rejects and where in drifts
+            ck.extra["binding_demo"] = {"corruption": "one byte of a file read back after a call changed" if pid == "C10"
+                                        else "a file that survived a crash removed from the recorded image",
+                                        "at": list(where), "rejected_by_FsRefTrace": where in rejects,
+                                        "rejected_by_FsImplTrace": where in drifts}
+            if not rejected:
+                raise MachineryError(f"binding demonstration failed: corrupted trace accepted at {where}")
+        else:
+            ck.extra["binding_demo"] = {"skipped": "no suitable event in the first random trace"}
 
     fam.report()
     ck.extra["rule"] = ("behaviours: one per transition of the joint FsImpl x FsRef state graph within the bound (VIEW) or one per "
